@@ -4,7 +4,7 @@
 cd /verif
 S=$1; shift
 [ -z "$(git -C /repo status --porcelain)" ] || { echo "/repo not clean"; exit 3; }
-git -C /repo apply "seeded/$S/patch.diff" || exit 3
+git -C /repo apply "/verif/seeded/$S/patch.diff" || exit 3
 trap 'git -C /repo checkout -- . ; git -C /repo clean -fdq gbasis' EXIT INT TERM
 for P in "$@"; do
   T=${TIER:-quick}
